@@ -32,11 +32,36 @@ def error_text_probe(ctx, res):
     group = execnet.Group()
     try:
         gw = group.makegateway("popen")
-        for kind in ("body", "callback"):
+        # a body that ends with KeyboardInterrupt / SystemExit in the worker's main thread: reported, and the worker goes on
+        for exc, marker in (("KeyboardInterrupt()", "keyboard-interrupted"), ("SystemExit(3)", "SystemExit")):
+            case = {"probe": "error-text", "where": "body", "raises": exc}
+            res.count(("error-text", "exit-like", exc))
+            ch = gw.remote_exec("channel.send(1)\nraise %s\n" % exc)
+            what = None
+            try:
+                ch.receive(10)
+                try:
+                    ch.waitclose(10)
+                    what = "a body raising %s closed its channel without an error" % exc
+                except gb.RemoteError as e:
+                    if marker not in str(e):
+                        what = "RemoteError for %s does not say so: %s" % (exc, str(e)[-100:])
+                if what is None and gw.remote_exec("channel.send(7)").receive(10) != 7:
+                    what = "sibling exec after a body raising %s answered wrongly" % exc
+            except Exception as e:  # noqa: BLE001
+                what = "after a body raising %s: %r (gateway receiving: %r)" % (exc, e, gw.hasreceiver())
+            if what:
+                res.violations.append(dict(case=case, what=what))
+                return
+            res.traces += 1
+        for kind in ("body", "callback", "body-after-reconfigure"):
+            if kind == "body-after-reconfigure":
+                # the error text is protocol data, not user data: the string coercion switches must not touch it
+                gw.reconfigure(py2str_as_py3str=False, py3str_as_py2str=True)
             for msg in ERROR_MESSAGES:
                 case = {"probe": "error-text", "where": kind, "message": ascii(msg)[:60]}
                 res.count(("error-text", kind, ascii(msg)[:60]))
-                if kind == "body":
+                if kind.startswith("body"):
                     ch = gw.remote_exec("channel.send(1)\nraise ValueError(%r)\n" % (msg,))
                 else:
                     ch = gw.remote_exec("def cb(x):\n    raise ValueError(%r)\nchannel.setcallback(cb)\nchannel.send('ready')\nimport time\ntime.sleep(0.5)\n" % (msg,))
